@@ -19,6 +19,7 @@ OUT = os.path.join(ROOT, "mutation")
 FILES = ["emitter/emitter.go", "emitter/chunk.go", "emitter/branch.go", "parser/parser.go", "parser/formattext.go", "lexer/lexer.go", "ast/ast.go"]
 ENV = dict(os.environ, GOFLAGS="-mod=mod", GOPROXY="off", GOSUMDB="off", GOTOOLCHAIN="local")
 ALL = ["C%02d" % i for i in range(1, 21)]
+MEM_LIMIT = 8 << 30
 ORDER = {
     "emitter/emitter.go": ["C04", "C01", "C05", "C06", "C08", "C09", "C14", "C16", "C03", "C15", "C10", "C11", "C17"],
     "emitter/chunk.go": ["C04", "C01", "C05", "C10", "C16", "C20"],
@@ -30,9 +31,15 @@ ORDER = {
 }
 
 
+def limit_mem():
+    # a mutant may allocate without bound: cap the address space of everything started for it
+    import resource
+    resource.setrlimit(resource.RLIMIT_AS, (MEM_LIMIT, MEM_LIMIT))
+
+
 def sh(cmd, cwd, timeout, env=ENV):
     import signal
-    p = subprocess.Popen(cmd, cwd=cwd, env=env, stdout=subprocess.PIPE, stderr=subprocess.STDOUT, text=True, shell=isinstance(cmd, str), start_new_session=True)
+    p = subprocess.Popen(cmd, cwd=cwd, env=env, stdout=subprocess.PIPE, stderr=subprocess.STDOUT, text=True, shell=isinstance(cmd, str), start_new_session=True, preexec_fn=limit_mem)
     try:
         out, _ = p.communicate(timeout=timeout)
         return p.returncode, out
@@ -140,8 +147,9 @@ def phase_suite(nworkers):
             rc, out = sh(["go", "build", "./..."], repo, 300)
             if rc != 0:
                 return dict(m, status="nocompile")
-            rc, out = sh(["go", "test", "-vet=off", "-count=1", "-timeout", "120s", "./..."], repo, 400)
-            return dict(m, status="suite-survived" if rc == 0 else "suite-killed")
+            t0 = time.time()
+            rc, out = sh(["go", "test", "-vet=off", "-count=1", "-timeout", "60s", "./..."], repo, 300)
+            return dict(m, status="suite-survived" if rc == 0 else "suite-killed", rc=rc, secs=round(time.time() - t0, 1))
         finally:
             restore(m, repo)
     run_pool(ms, nworkers, one, outpath)
